@@ -1662,7 +1662,7 @@ def _strip_composite(t):
 
 
 def gen_cases(rng, tier, ctx):
-    mult = {'quick': 1, 'thorough': 16}[tier]
+    mult = {'quick': 1, 'thorough': 8}[tier]      # round 5: 16 -> 8, the full run has to fit ~25 min
     cases = []
 
     def add(kind, build, path=None, op=None):
@@ -2038,7 +2038,7 @@ def gen_dec(rng, tier):
             add(leaf_rep, sr, [], ['flatten', 1])
             add(node([leaf(n)]), sr, [], ['unroll_children'])
             add(node([leaf(n), leaf(2)]), sr, [], ['split', 0])
-    for _ in range({'quick': 140, 'thorough': 2500}[tier]):
+    for _ in range({'quick': 140, 'thorough': 1200}[tier]):
         den, ks = rng.choice(fams)
         t = g_dec_tree(rng, den, ks, rng.randint(1, 3))
         sr = F(den * rng.choice([1, 1, 2, 3]))
